@@ -532,6 +532,26 @@ func reloadExec(r *gen.R, useDotted bool, script func(x *reloadRun)) []run.Case 
 			}
 		}
 	}
+	// monitor 3 (C15): every index of the catalog before Close and of the reloaded one holds exactly the
+	// documents of its collection within its partial filter, in key order (api_index.go)
+	for _, side := range []struct {
+		name string
+		cat  *lungo.Catalog
+	}{{"before close", before}, {"after reload", after}} {
+		func() {
+			defer func() {
+				if p := recover(); p != nil {
+					viols = append(viols, run.Violation{Property: "C20", What: "monitor index panicked on the implementation's state", Witness: "monitor-panic:index", Req: req, Detail: fmt.Sprint(p)})
+				}
+			}()
+			for _, h := range sortedHandles(side.cat) {
+				for _, is := range indexIssues(side.cat.Namespaces[h]) {
+					viols = append(viols, run.Violation{Property: "C15", What: "an index does not hold exactly the documents of its collection (within its partial filter) in key order",
+						Witness: "index-incoherent:" + is.reason, Req: req, Detail: clip(h.String()+" "+side.name+": "+is.detail, 700)})
+				}
+			}
+		}()
+	}
 	engine2.Close()
 
 	nontrivial := nDocs > 0 || nIdx > 1
